@@ -160,6 +160,17 @@ func (tc *termCtx) term(v ssa.Value, d int) string {
 	case *ssa.Call:
 		return tc.callAt(&v.Call, v, d)
 	case *ssa.Extract:
+		if c, ok := v.Tuple.(*ssa.Call); ok {
+			if f := c.Call.StaticCallee(); f != nil {
+				if rt, ok := tc.ff.P.valueHelperN(f, v.Index); ok {
+					var args []string
+					for _, a := range c.Call.Args {
+						args = append(args, tc.term(a, d+1))
+					}
+					return substParams(rt, args)
+				}
+			}
+		}
 		return tc.term(v.Tuple, d+1) + fmt.Sprintf("#%d", v.Index)
 	case *ssa.Phi:
 		return tc.phi(v, d)
@@ -305,6 +316,12 @@ func (tc *termCtx) phi(v *ssa.Phi, d int) string {
 		is := uniqTerms(tc, inits, d)
 		ss := uniqTerms(tc, steps, d)
 		delete(tc.progress, v)
+		// an empty made slice and a nil slice are the same accumulator start (pre-sizing is not a change)
+		for i, t := range is {
+			if emptyMakeRe.MatchString(t) {
+				is[i] = "nil"
+			}
+		}
 		return "fold[" + ph + "=" + strings.Join(is, "|") + "; " + strings.Join(ss, " | ") + "]"
 	}
 	tc.progress[v] = "↺"
@@ -660,6 +677,8 @@ func reachingStores(a *ssa.Alloc, load ssa.Instruction) (out []*ssa.Store, zero 
 	return
 }
 
+var emptyMakeRe = regexp.MustCompile(`^make\(\[\][^,]*, 0\)$`)
+
 var paramRe = regexp.MustCompile(`(^|[^A-Za-z0-9_])\$(\^*\d)`)
 
 var freeVarMemo = map[*ssa.FreeVar]string{}
@@ -816,7 +835,11 @@ func (p *Program) checkHelperFacts(f *ssa.Function) []string {
 	}
 	checkHelperMemo[f] = nil
 	res := f.Signature.Results()
-	if !p.singleUse(f) || res.Len() == 0 || !isErrorType(res.At(res.Len()-1).Type()) || helperBusy[f] {
+	isBool := func(t types.Type) bool {
+		b, ok := t.Underlying().(*types.Basic)
+		return ok && b.Kind() == types.Bool
+	}
+	if !p.singleUse(f) || res.Len() == 0 || helperBusy[f] || !(isErrorType(res.At(res.Len()-1).Type()) || res.Len() == 1 && isBool(res.At(0).Type())) {
 		return nil
 	}
 	helperBusy[f] = true
@@ -845,4 +868,83 @@ func (p *Program) checkHelperFacts(f *ssa.Function) []string {
 	sort.Strings(out)
 	checkHelperMemo[f] = out
 	return out
+}
+
+// attribute: the function a program point belongs to for ownership rules, and the facts known there.
+// A point inside a single-use helper belongs to the helper's caller: its facts are the caller's facts at
+// the call site plus the helper's own (with the arguments substituted).
+func (p *Program) attribute(fn *ssa.Function, b *ssa.BasicBlock) (*ssa.Function, []string) {
+	ff := p.Facts(fn)
+	var facts []string
+	for _, a := range ff.Must(b) {
+		facts = append(facts, a.S)
+	}
+	for d := 0; d < 3 && p.singleUse(fn); d++ {
+		var site ssa.CallInstruction
+		var caller *ssa.Function
+		for _, g := range p.ModFns {
+			for _, gb := range g.Blocks {
+				for _, in := range gb.Instrs {
+					if ci, ok := in.(ssa.CallInstruction); ok && ci.Common().StaticCallee() == fn {
+						site, caller = ci, g
+					}
+				}
+			}
+		}
+		if site == nil {
+			break
+		}
+		cf := p.Facts(caller)
+		var args []string
+		for _, a := range site.Common().Args {
+			args = append(args, cf.Term(a))
+		}
+		for i, f := range facts {
+			facts[i] = substParams(f, args)
+		}
+		for _, a := range cf.Must(site.Block()) {
+			facts = append(facts, a.S)
+		}
+		fn = caller
+	}
+	return fn, facts
+}
+
+var helperNMemo = map[string]string{}
+
+// valueHelperN: result k of a single-use helper with signature (..., error): the term of that result on
+// the success returns (error result nil), when all of them agree and the term is self-contained.
+func (p *Program) valueHelperN(f *ssa.Function, k int) (string, bool) {
+	key := fmt.Sprintf("%p/%d", f, k)
+	if t, ok := helperNMemo[key]; ok {
+		return t, t != ""
+	}
+	helperNMemo[key] = ""
+	res := f.Signature.Results()
+	if res.Len() < 2 || k >= res.Len()-1 || !isErrorType(res.At(res.Len()-1).Type()) || !p.singleUse(f) || helperBusy[f] {
+		return "", false
+	}
+	helperBusy[f] = true
+	defer delete(helperBusy, f)
+	ff := p.Facts(f)
+	rt := ""
+	for _, b := range f.Blocks {
+		ret, ok := b.Instrs[len(b.Instrs)-1].(*ssa.Return)
+		if !ok || len(ret.Results) != res.Len() {
+			continue
+		}
+		if c, ok := ret.Results[res.Len()-1].(*ssa.Const); !ok || !c.IsNil() {
+			continue // an error return: its value results are not used by callers that check the error
+		}
+		t := ff.Term(ret.Results[k])
+		if rt != "" && rt != t {
+			return "", false
+		}
+		rt = t
+	}
+	if !cleanHelperTerm(rt) {
+		return "", false
+	}
+	helperNMemo[key] = rt
+	return rt, true
 }
